@@ -187,7 +187,7 @@ macro_rules! av1_h {
         h!($name, 34, { av1_body::<$p, $t>() });
     };
 }
-//@ prop=C07,C12 tier_C12=quick tier=thorough cost=300 fns="codec::av1::extract_av1_config,parse_sequence_header,parse_color_config,BitReader,ObuIter::next,parse_obu_header,read_leb128" bound="all 5-byte sequence-header payloads (operating_points_cnt <= 2, seq_profile <= 2)" unwind=34 unwindset="muxide::codec::av1::parse_sequence_header.0:3,muxide::codec::av1::skip_uvlc.0:10" timeout=1400 mem=12 covers_optional="color_description|profile 2, 12|ordinary header"
+//@ prop=C07,C12 tier_C12=thorough tier=thorough cost=300 fns="codec::av1::extract_av1_config,parse_sequence_header,parse_color_config,BitReader,ObuIter::next,parse_obu_header,read_leb128" bound="all 5-byte sequence-header payloads (operating_points_cnt <= 2, seq_profile <= 2)" unwind=34 unwindset="muxide::codec::av1::parse_sequence_header.0:3,muxide::codec::av1::skip_uvlc.0:10" timeout=1400 mem=12 covers_optional="color_description|profile 2, 12|ordinary header"
 av1_h!(c07_av1_payload5, 5, 7);
 //@ prop=C07,C12 tier_C12=thorough tier=quick cost=400 fns="codec::av1::extract_av1_config,parse_sequence_header,parse_color_config,BitReader" bound="all 7-byte sequence-header payloads (operating_points_cnt <= 2, seq_profile <= 2)" unwind=34 unwindset="muxide::codec::av1::parse_sequence_header.0:3,muxide::codec::av1::skip_uvlc.0:10" timeout=1400 mem=12 covers_optional="12 bit|ordinary header"
 av1_h!(c07_av1_payload7, 7, 9);
